@@ -54,7 +54,8 @@ def stable_key(name: str, src, qual: str) -> str:
         txt = lines[ln].strip() if 0 <= ln < len(lines) else ""
         return "S" + hashlib.blake2b(txt.encode(), digest_size=3).hexdigest()
 
-    return re.sub(r"L\+(\d+)", rep, name)
+    # the /KofN suffix of split conjuncts is dropped: a clause is in the ledger iff *all* its parts were proved
+    return re.sub(r"/\d+of\d+$", "", re.sub(r"L\+(\d+)", rep, name))
 
 
 _SRC_CACHE: dict = {}
@@ -78,8 +79,11 @@ def _verify_one(args):
         groups: dict = {}
         for ob in r["obligations"]:
             groups.setdefault(tuple(h.get_id() if hasattr(h, "get_id") else hash(h) for h in ob.hyps), []).append(ob)
+        budget = {"cvc5": 4 if tier == "quick" else 40}  # open obligations that get the slow second opinion
+
         for g in groups.values():
-            solve.discharge_group(g, use_cvc5=True, cvc5_ms=cvc_ms)
+            solve.discharge_group(g, use_cvc5=budget, cvc5_ms=cvc_ms)
+        fmf_left = 2 if tier == "quick" else 20
         for ob in r["obligations"]:
             sample = None
             if ob.kind == "ensures" and ob.status == "proved" and not obs_has_sample(obs):
@@ -88,7 +92,8 @@ def _verify_one(args):
                 except Exception:  # noqa: BLE001
                     sample = None
             refuter = ""
-            if ob.status != "proved" and ob.kind != "must_fail" and os.environ.get("PYVC_FMF", "1") == "1":
+            if ob.status != "proved" and ob.kind != "must_fail" and os.environ.get("PYVC_FMF", "1") == "1" and fmf_left > 0:
+                fmf_left -= 1
                 try:
                     rr, out = solve.cvc5_refute(ob, 15000 if tier == "quick" else 120000)
                     refuter = f"cvc5 --finite-model-find: {rr}" + (" | " + " ".join(l.strip() for l in out.split("\n") if "cardinality" in l or "define-fun self" in l)[:600] if rr == "sat" else "")
@@ -261,6 +266,7 @@ def make_ledger(src="/repo"):
     quals = sorted(q for q, c in reg.items() if not c.inline and not c.assumed)
     results = verify_functions(quals, src, "quick")
     led = {}
+    bad_keys = set()
     stats = {"functions": 0, "obligations": 0, "proved": 0, "open": []}
     for r in results:
         if r["error"] or r["out_of_reach"]:
@@ -276,6 +282,7 @@ def make_ledger(src="/repo"):
                 led[ob["key"]] = led.get(ob["key"], 0) + 1
             else:
                 stats["open"].append(ob["name"])
+                bad_keys.add(ob["key"])
     # C18 effect obligations
     from . import lockcheck
     from .source import Source
@@ -289,6 +296,8 @@ def make_ledger(src="/repo"):
             led[k] = led.get(k, 0) + 1
         else:
             stats["open"].append(o["name"])
+    for k in bad_keys:
+        led.pop(k, None)
     os.makedirs(os.path.dirname(LEDGER), exist_ok=True)
     json.dump({"generated_from": src, "obligations": dict(sorted(led.items()))}, open(LEDGER, "w"), indent=0)
     print(json.dumps({k: v for k, v in stats.items() if k != "open"}), "open:", len(stats["open"]))
